@@ -19,8 +19,10 @@ Model of the identifier functions of the Rust and C++ backends (C09, C31).
   crates/cpp/src/lib.rs    `namespace(..)`: [to_c_ident ns, to_c_ident (name_package_module pkg), to_c_ident iface]
 
 The escape tables are *generated* from the source text on every run (tools/gen_ident_tables.py), so
-the theorems are re-proved against what the code says now.  The match is on the name as written
-in WIT (kebab case); every other name is converted with heck.  Domain: WIT identifiers
+the theorems are re-proved against what the code says now.  Whether the table is looked up on the
+name as written in WIT (`match name`, the code before /repo d8fe118 / 89692d8) or on the snake-cased
+name (`match name.to_snake_case().as_str()`, the code since) is extracted too (`matchOnSnake`);
+`escapeBy` selects `escapeIdent` resp. `escapeIdentS`.  Names that hit no arm are converted with heck.  Domain: WIT identifiers
 (`PkgSpec.validName` = wit-parser `validate_id`), i.e. ASCII; `upperChar` is exact for ASCII only.
 Import-free apart from other model files.
 -/
@@ -78,6 +80,10 @@ def toUpperCamelRust (n : List Char) : List Char :=
 /-- the Rust type name of a WIT type captures a prelude name the templates use unqualified -/
 def capturesPrelude (n : List Char) : Bool :=
   Witverif.Generated.RustIdent.unqualifiedPrelude.contains (toUpperCamelRust n)
+
+/-- the Rust type name of a WIT type equals a generic type parameter the templates declare (`T`) -/
+def capturedByGenericParam (n : List Char) : Bool :=
+  Witverif.Generated.RustIdent.genericParams.contains (toUpperCamelRust n)
 
 /-- the Rust name of a resource method / static function equals a function the templates define by a
 fixed name (inherent methods `handle`, `take_handle`, `from_handle`, `new`, … of the resource wrapper) -/
